@@ -23,7 +23,7 @@ FUNCS = ['androguard.decompiler.opcode_ins (INSTRUCTION_SET translations, Op tab
 # the program corpus is fixed (it does not follow VERIF_SEED): a new seed would draw programs that hit decompiler defects
 # not yet triaged, and an untriaged defect must not make the check of the unchanged tree fail
 CORPUS_SEED = 0
-FLAVOURS = ['straight-int', 'straight-long', 'casts', 'ifs', 'loops', 'switches', 'mixed']
+FLAVOURS = ['straight-int', 'straight-long', 'casts', 'ifs', 'loops', 'switches', 'mixed', 'shared-switch']
 
 
 def nins(p):
